@@ -244,6 +244,10 @@ class SymCtx:
 
     def same_term(self, a, b) -> bool:
         """syntactic identity after simplification (same operations on the same inputs)"""
+        for v in (a, b):
+            if isinstance(v, float) and not isinstance(v, SymFloat) and (v != v or v in (math.inf, -math.inf)):
+                return (a is b) or (isinstance(a, float) and isinstance(b, float) and not isinstance(a, SymFloat) and not isinstance(b, SymFloat)
+                                   and ((a != a and b != b) or a == b))
         la, lb = lift(a), lift(b)
         if la is None or lb is None:
             return a is b or a == b
